@@ -5,7 +5,7 @@ from ..curve import *
 
 VO = ['Props/C03.vo']
 FILES = ['Props/C03.v', 'Proofs/Codec.v', 'Proofs/Projective.v', 'Proofs/ByteLevel.v', 'Proofs/Final.v', 'Tie/Curve.v', 'Proofs/Instance.v']
-ENC = {'ark': ['el.enc', 'el.enc.from_elem', 'el.enc.from_ref', 'el.enc.arr_from', 'el.ser', 'el.enc.to_field'],
+ENC = {'ark': ['el.enc', 'el.enc.from_elem', 'el.enc.from_ref', 'el.enc.arr_from', 'el.ser', 'el.ser_uncompressed', 'el.enc.to_field'],
        'min': ['el.enc', 'el.enc.from_elem', 'el.enc.from_ref', 'el.enc.arr_from', 'el.enc.to_field']}
 
 def families(ctx, build, scale):
@@ -25,7 +25,7 @@ def build_scripts(ctx, scale):
                     lines.append('%s %s' % (op, E(c)))
         if b == 'ark':
             for f in fam[:30 * scale]:
-                lines.append('el.to_affine %s' % E(f[0])); lines.append('af.ser %s' % Af(pyref.aff(f[0])))
+                lines.append('el.to_affine %s' % E(f[0])); lines.append('af.ser %s' % Af(pyref.aff(f[0]))); lines.append('af.ser_uncompressed %s' % Af(pyref.aff(f[0])))
         scripts[b] = lines
     return scripts
 
@@ -39,10 +39,15 @@ def search(ctx, scale, hints):
                 c = parseE(t[1])
                 if pyref.wf(c): fam.append([c] + pool.reps(c, ctx.rng))
         lines = []; meta = []
+        # every byte-producing encoder / serialiser (every serialisation mode) on every representative
+        bops = ['el.enc', 'el.ser', 'el.ser_uncompressed'] if b == 'ark' else ['el.enc']
         for i, f in enumerate(fam):
             for c in f:
-                lines.append('el.enc %s' % E(c)); meta.append((i, c))
+                for k, op in enumerate(bops):
+                    if k and i >= 24: continue
+                    lines.append('%s %s' % (op, E(c))); meta.append((i, c))
         out = harness.run_script(b, lines)
+        out = [o[3:] if o.startswith('OK ') else o for o in out]
         first = {}
         for (i, c), o in zip(meta, out):
             spec = pyref.encode_spec(pyref.aff(c))
